@@ -21,7 +21,10 @@ def describe(tier):
 def jobs(tier):
     ka, kb = BOUNDS[tier]
     sub = 1 if tier == 'quick' else 6
-    return [(i, ka, kb, j, sub) for i in range(len(L)) for j in range(sub)]
+    js = [(i, ka, kb, j, sub) for i in range(len(L)) for j in range(sub)]
+    step = 82 if tier == 'quick' else 16
+    js += [('spec', lo, lo + step, 1 if tier == 'quick' else 2) for lo in range(0, 652, step)]
+    return js
 
 
 def ast_of(text):
@@ -99,9 +102,30 @@ def strip_ln(a):
     return a
 
 
+def spec_texts(lo, hi):
+    from checks import c02
+    for ex in c02.corpus()[lo:hi]:
+        md = ex['markdown']
+        if md.strip() == '' or not md.endswith('\n') or md.endswith('\n\n') or any(c in md for c in '\r\x0b\x0c'):
+            continue
+        yield md[:-1].split('\n')
+
+
 def run_job(job):
-    first, ka, kb, sub_j, sub_n = job
     r = core.Result()
+    if job[0] == 'spec':
+        # spec examples as A (against all short B) and as B (against all one-line A)
+        _, lo, hi, kb = job
+        shortB = list(texts(kb))
+        oneA = [[l] for l in L if l.strip()]
+        for S in spec_texts(lo, hi):
+            for other in shortB:
+                judge(r, S, other)
+            for other in oneA:
+                judge(r, other, S)
+        r.sample(dict(space='spec corpus as A and as B', examples=[lo + 1, hi]), 1)
+        return r
+    first, ka, kb, sub_j, sub_n = job
     idx = 0
     Bs = []
     for B in texts(kb):
@@ -138,6 +162,19 @@ def run_job(job):
                 r.outcome('A-ends-in:' + a['children'][-1]['type'])
     r.sample(dict(A=[L[first]], B=[L[1]]), 1)
     return r
+
+
+def judge(r, A, B):
+    res = check_pair(A, B)
+    if isinstance(res, tuple):
+        r.skip(res[1])
+        return
+    r.states += 1
+    r.transitions += 1
+    r.validated += 1
+    if res:
+        r.fail(dict(A=A, B=B), res['sig'], res.get('detail', ''), expected=res.get('expected'), observed=res.get('observed'))
+    r.outcome('spec-pair')
 
 
 def replay(case):
